@@ -4,7 +4,7 @@
    handler.transports and the per-address semaphores at every quiescent point.  The model replays
    the same schedule: every item must be enabled, every snapshot must agree, and the event trace
    (hook calls, layer events, connect/read/write/close calls, coroutine exits) must be identical. *)
-From Coq Require Import List Bool Arith Ascii String.
+From Coq Require Import List Bool Arith NArith.
 From MV Require Import Base.Bytes Model.ConnHandler.
 Import ListNotations.
 
@@ -67,7 +67,7 @@ Definition tr_eqb (a b : trow) : bool :=
 
 Definition snap_ok (s : st) (tr : list trow) (sems : list srow) : bool :=
   list_eqb tr_eqb (entries (conns s) 0) tr &&
-  forallb (fun x => match x with SR a v w => Nat.eqb (semval s a) v && Nat.eqb (List.length (semq s a)) w end) sems.
+  forallb (fun x => match x with SR a v w => Nat.eqb (semval s a) v && Nat.eqb (length (semq s a)) w end) sems.
 
 Definition snapshot := (list trow * list srow)%type.
 
@@ -88,20 +88,19 @@ Definition check_dcase (c : dcase) : bool :=
   end.
 
 (* ---------------------------------------------------------------- compact encoding of a case
-   Generated case files carry each case as one string literal (elaborating constructor terms of
-   this size costs ~0.1 s per case).  A number n < 64 is the character with code 40+n, larger
-   numbers are a single-quote followed by two such characters (n = 64*hi + lo).  The token stream
-   is: script (command lists, each closed by 0; END) sched (END) trace (END) main_done.
-   Any decoding failure makes check_case false. *)
-Fixpoint toks (s : string) (stt acc : nat) : list nat :=
+   Generated case files carry each case as one byte list (elaborating constructor terms of this
+   size is several times slower).  A number n < 255 is the byte n, larger numbers are 255 followed
+   by two bytes (n = 256*hi + lo).  The token stream is: script (command lists, each closed by 0;
+   END) sched (END) trace (END) main_done.  Any decoding failure makes check_case false. *)
+Fixpoint toks (s : bytes) (stt acc : nat) : list nat :=
   match s with
-  | EmptyString => []
-  | String a s' =>
-    let n := nat_of_ascii a in
+  | [] => []
+  | a :: s' =>
+    let n := N.to_nat (bN a) in
     match stt with
-    | 0 => if Nat.eqb n 39 then toks s' 1 0 else (n - 40) :: toks s' 0 0
-    | 1 => toks s' 2 ((n - 40) * 64)
-    | _ => (acc + (n - 40)) :: toks s' 0 0
+    | 0 => if Nat.eqb n 255 then toks s' 1 0 else n :: toks s' 0 0
+    | 1 => toks s' 2 (n * 256)
+    | _ => (acc + n) :: toks s' 0 0
     end
   end.
 
@@ -192,9 +191,9 @@ Fixpoint ptrace (f : nat) (l : list nat) : option (list ev * list nat) :=
     end
   end.
 
-Definition decode (s : string) : option dcase :=
+Definition decode (s : bytes) : option dcase :=
   let l := toks s 0 0 in
-  let f := S (List.length l) in
+  let f := S (length l) in
   match pscript f l with
   | Some (sc, r1) =>
     match psched f r1 with
@@ -208,6 +207,6 @@ Definition decode (s : string) : option dcase :=
   | None => None
   end.
 
-Definition case := string.
+Definition case := bytes.
 Definition check_case (c : case) : bool :=
   match decode c with Some d => check_dcase d | None => false end.
